@@ -198,7 +198,7 @@ def run_fsmx(binary, name, props, dev, mf_, og_, workers=1, deadline=None, flags
         except Exception:
             res = None
         os.unlink(out)
-    return dict(rc=rc, stdout=so, stderr=se[-4000:], result=res, cmd=cmd, wall=time.time() - t0, name=name)
+    return dict(rc=rc, stdout=so, stderr=(se if len(se) < 9000 else se[:4500] + '\n[...]\n' + se[-4500:]), result=res, cmd=cmd, wall=time.time() - t0, name=name)
 
 # --------------------------------------------------------------------------- known findings
 def load_findings():
@@ -245,7 +245,12 @@ class Verdict:
             for w in r['witnesses']:
                 if w['property'] != mine or w['pred'] in seen: continue
                 seen.add(w['pred'])
-                self.add_violation(w['pred'], w['text'], dict(kind='fsmx', config=cfgname, defs=defs, variant=runspec.get('variant', 'plain'), header=runspec.get('header', 'shipped'), replay=w['replay'], props=[mine], flags=[f for f in runspec.get('flags', []) if f in ('--replica', '--copy')]), count=nviol)
+                rd = dict(kind='fsmx', config=cfgname, defs=defs, variant=runspec.get('variant', 'plain'), header=runspec.get('header', 'shipped'), replay=w['replay'], props=[mine], flags=[f for f in runspec.get('flags', []) if f in ('--replica', '--copy')])
+                text = w['text']
+                if w['pred'] == 'crash':
+                    rep = [l.strip() for l in run['stderr'].splitlines() if 'runtime error' in l or 'ERROR: ' in l or 'WARNING: MemorySanitizer' in l][:2]
+                    rd['stderr'] = run['stderr'][:6000]; text = '%s build of %s: %s || %s' % (runspec.get('variant', 'plain'), cfgname, ' | '.join(rep)[:600], text)
+                self.add_violation(w['pred'], text, rd, count=nviol)
             if not seen:
                 self.add_violation('unattributed', '%d violations without witness' % nviol, dict(kind='fsmx', config=cfgname), count=nviol)
     def add_violation(self, pred, text, replay, count=1):
